@@ -170,6 +170,9 @@ pub enum Fault {
 pub enum PasswordVerdict {
     Accept,
     Reject(u64),
+    /// the ACK follows output the command had already printed / a completed list frame
+    RejectAfterOutput(u64),
+    RejectAfterListOk(u64),
     Close,
     Garbage,
     CutInsideReply,
@@ -195,6 +198,8 @@ pub struct WorldCfg {
     pub read_cap: usize,
     pub pending_p: u32,
     pub write_cap: usize,
+    /// back-pressure: every write call first stays Pending for this long (virtual time)
+    pub write_delay: Duration,
     pub c2s_latency: Vec<Duration>,
     pub reply_delay: Vec<Duration>,
     pub chunk_delay: Vec<Duration>,
@@ -216,6 +221,7 @@ impl WorldCfg {
             read_cap: usize::MAX,
             pending_p: 0,
             write_cap: usize::MAX,
+            write_delay: Duration::ZERO,
             c2s_latency: vec![Duration::ZERO],
             reply_delay: vec![Duration::ZERO],
             chunk_delay: vec![Duration::ZERO],
@@ -394,7 +400,7 @@ impl World {
     }
 
     pub fn io(&self) -> SimIo {
-        SimIo { w: self.clone() }
+        SimIo { w: self.clone(), write_sleep: None }
     }
 
     pub fn log_ev(&self, kind: EvKind) {
@@ -676,6 +682,11 @@ impl World {
                         self.emit(g, ReplyKind::Garbage, b"!! this is not MPD\n".to_vec(), vec![], vec![idx], &[0]);
                         return;
                     }
+                    PasswordVerdict::RejectAfterListOk(code) => {
+                        let bytes = format!("list_OK\nACK [{}@1] {{password}} incorrect password\n", code).into_bytes();
+                        self.emit(g, ReplyKind::Request, bytes, vec![], vec![idx], &[0, 8]);
+                        return;
+                    }
                     PasswordVerdict::CutInsideReply => {
                         self.emit(g, ReplyKind::Garbage, b"ACK [3@0] {passw".to_vec(), vec![], vec![idx], &[0]);
                         g.server_closed = true;
@@ -729,7 +740,8 @@ impl World {
                         Ok(AFrame::empty())
                     }
                     PasswordVerdict::Accept => Err(ack(3, "incorrect password".into()).into()),
-                    PasswordVerdict::Reject(code) => Err(ack(code, "incorrect password".into()).into()),
+                    PasswordVerdict::Reject(code) | PasswordVerdict::RejectAfterListOk(code) => Err(ack(code, "incorrect password".into()).into()),
+                    PasswordVerdict::RejectAfterOutput(code) => Err(Fail { partial: Some(AFrame { fields: vec![("notice".to_string(), "checking".to_string())], binary: None }), error: ack(code, "incorrect password".into()) }),
                     PasswordVerdict::Close => {
                         g.server_closed = true;
                         g.push(EvKind::ServerClosed);
@@ -889,6 +901,8 @@ fn encode_frame(f: &AFrame, out: &mut Vec<u8>, offs: &mut Vec<usize>) {
 
 pub struct SimIo {
     w: World,
+    /// armed while a write is being held back (back-pressure)
+    write_sleep: Option<Pin<Box<tokio::time::Sleep>>>,
 }
 
 impl AsyncRead for SimIo {
@@ -941,7 +955,22 @@ impl AsyncRead for SimIo {
 }
 
 impl AsyncWrite for SimIo {
-    fn poll_write(self: Pin<&mut Self>, _cx: &mut Context<'_>, buf: &[u8]) -> Poll<io::Result<usize>> {
+    fn poll_write(mut self: Pin<&mut Self>, cx: &mut Context<'_>, buf: &[u8]) -> Poll<io::Result<usize>> {
+        // back-pressure: the peer is slow to read; the write completes only after the delay
+        let delay = self.w.inner.lock().unwrap().cfg.write_delay;
+        if delay > Duration::ZERO {
+            if self.write_sleep.is_none() {
+                self.write_sleep = Some(Box::pin(tokio::time::sleep(delay)));
+            }
+            let ready = {
+                use std::future::Future;
+                self.write_sleep.as_mut().unwrap().as_mut().poll(cx).is_ready()
+            };
+            if !ready {
+                return Poll::Pending;
+            }
+            self.write_sleep = None;
+        }
         let mut g = self.w.inner.lock().unwrap();
         let call = g.write_calls;
         g.write_calls += 1;
